@@ -452,7 +452,7 @@ fn build_labelled<'a>(d: &'a PrettifiableDataset) -> BTreeSet<&'a SimpleTerm<'a>
                             named_graphs: [q.g()].into_iter().collect(),
                             out_degree: usize::from(i == 0),
                             predecessor: if i == 2 { Some(q.s()) } else { None },
-                            visited: false,
+                            visited: 0,
                         });
                 }
                 TermKind::Triple => {
@@ -472,7 +472,7 @@ fn build_labelled<'a>(d: &'a PrettifiableDataset) -> BTreeSet<&'a SimpleTerm<'a>
                                 named_graphs: Default::default(),
                                 out_degree: 0,
                                 predecessor: None,
-                                visited: false,
+                                visited: 0,
                             });
                     }
                 }
@@ -482,22 +482,30 @@ fn build_labelled<'a>(d: &'a PrettifiableDataset) -> BTreeSet<&'a SimpleTerm<'a>
     }
     // detect blank node cycles
     let keys: Vec<_> = profiles.keys().copied().collect();
-    for key in keys {
+    for (n, key) in keys.into_iter().enumerate() {
+        let walk = n + 1;
         let profile = profiles.get_mut(&key).unwrap();
-        if profile.bad || profile.visited {
+        if profile.bad || profile.visited != 0 {
             continue;
         }
-        profile.visited = true;
+        profile.visited = walk;
         let mut current = profile.predecessor;
         while let Some(t) = current {
             if let Some(p) = profiles.get_mut(&t) {
                 if t == key {
                     p.bad = true;
                     break;
-                } else if p.bad || p.visited {
+                } else if p.bad {
+                    break;
+                } else if p.visited != 0 {
+                    // a node visited during this very walk closes a cycle that does not
+                    // contain `key` (`key` hangs off it): this node must be labelled
+                    if p.visited == walk {
+                        p.bad = true;
+                    }
                     break;
                 } else {
-                    p.visited = true;
+                    p.visited = walk;
                     current = p.predecessor;
                 }
             } else {
@@ -516,7 +524,8 @@ struct BnodeProfile<'a> {
     named_graphs: BTreeSet<GraphName<&'a SimpleTerm<'a>>>,
     out_degree: usize,
     predecessor: Option<&'a SimpleTerm<'a>>,
-    visited: bool,
+    /// 0 if not visited yet, otherwise the number of the walk that visited it
+    visited: usize,
 }
 
 impl<'a> BnodeProfile<'a> {
